@@ -111,6 +111,7 @@ type c18cfg struct {
 	cutFirst  bool // the link breaks right before the user cancels: the abort message cannot be written
 	bApproves bool // B's user approves at the moment A's user cancels
 	reReg     bool // A's user registers B once more at the moment the established connection ends
+	otherAt   time.Duration // A's user registers a third, absent service at this time (notifications of one SKI must not affect another's)
 }
 
 func c18Body(c c18cfg) func() {
@@ -136,6 +137,10 @@ func c18Body(c c18cfg) func() {
 			for _, l := range fakews.Links() {
 				_ = l.Server.Close()
 			}
+		}
+		if c.otherAt > 0 {
+			simrt.RunFor(c.otherAt)
+			a.Hub.RegisterRemoteSKI(hubx.CertSKI(2))
 		}
 		if c.aCancels {
 			at := c.cancelAt
@@ -192,6 +197,10 @@ func c18Body(c c18cfg) func() {
 		for _, p := range []struct{ n, peer *hubx.Node }{{a, b}, {b, a}} {
 			seq := pairingSeq(p.n.App, p.peer.SKI)
 			if len(seq) == 0 {
+				// never told anything: fine only if there is nothing to tell
+				if cur := p.n.Hub.PairingDetailForSki(p.peer.SKI); uint(cur.State()) != 0 {
+					simrt.Fail("C18|last-notification-stale", "hub %s: PairingDetailForSki reports %d but the application never got a pairing notification for that service", p.n.Name, uint(cur.State()))
+				}
 				continue
 			}
 			// monotone: creation order = spawn order of the notification goroutines (synchronous calls count at call time)
@@ -240,6 +249,8 @@ func c18Scenarios(r *hx.Run) []hx.Scenario {
 		{name: "unregister-early", bTrustsA: true, bWaits: true, unregAt: 100 * time.Millisecond},
 		{name: "unregister-late", bTrustsA: true, bWaits: true, unregAt: 2 * time.Second},
 		{name: "error-cut", bTrustsA: true, bWaits: true, cutAfter: 0},
+		{name: "success+other-service", bTrustsA: true, bWaits: true, otherAt: 20 * time.Millisecond},
+		{name: "pending+other-service", bTrustsA: false, bWaits: true, otherAt: 100 * time.Millisecond},
 		{name: "local-cancel-broken-link", bTrustsA: false, bWaits: true, aCancels: true, cutFirst: true},
 		{name: "local-cancel-vs-remote-approve", bTrustsA: false, bWaits: true, aCancels: true, bApproves: true},
 		{name: "unregister-broken-link", bTrustsA: true, bWaits: true, unregAt: 2 * time.Second, cutFirst: true},
